@@ -240,6 +240,52 @@ def gen_push(r):
     return {"init": {"chain": chain, "n0": n0, "top": top - grows, "qcap": qcap, "up": up}, "steps": steps, "src": "gen-push"}
 
 
+def _valid_under(sigs, keys):
+    last = -1
+    seen = set()
+    for sg in sigs:
+        if sg["idx"] >= len(keys) or sg["idx"] <= last or keys[sg["idx"]] != sg["signer"] or sg["signer"] in seen:
+            return False
+        last = sg["idx"]
+        seen.add(sg["signer"])
+    return len(sigs) > 0 and len(sigs) >= q(len(keys))
+
+
+def gen_held(r, kind):
+    """A lookup (or a gossiped VAA) of a FUTURE index i whose chain fetch the node holds back while another caller
+    appends past i (the updater with sets up to i+1 or further / a lookup of a newer index); then the node answers.
+    The push variants name the intermediate set i and are signed either by set i (valid) or by the newer set i+1."""
+    k = r.choice([4, 5, 6])
+    while True:
+        chain = universe(r, k)
+        if all(chain[j] != chain[j + 1] for j in range(k - 1)):
+            break
+    n0 = r.randrange(1, k - 1)          # cur = n0-1; i = n0 is unknown to the explorer, i+1 exists on chain
+    i = n0
+    hi = r.randrange(i + 1, k)
+    init = {"chain": chain, "n0": n0, "top": k - 1, "qcap": 3, "up": True}
+    if kind == "sets":
+        steps = [{"ev": "Current", "a": {}},
+                 {"ev": "HeldLookup", "a": {"i": i, "lo": r.choice([1, n0]), "hi": hi}}]
+        steps += [{"ev": "Lookup", "a": {"i": j}} for j in range(0, hi + 1)]
+        return {"init": init, "steps": steps, "src": "held-lookup"}
+    ki, kn = chain[i], chain[i + 1]
+    if r.random() < 0.5:
+        v = mk_vaa("hv", i, ki, sorted(r.sample(range(len(ki)), q(len(ki)))), "held-valid-intermediate-set")
+    else:
+        v = mk_vaa("hn", i, kn, sorted(r.sample(range(len(kn)), q(len(kn)))), "held-names-intermediate-signed-by-newer-set")
+        if _valid_under(v["sigs"], ki):
+            v["cls"] = "held-valid-intermediate-set"
+    steps = [{"ev": "HeldPush", "a": {"v": v, "advance": hi}}, {"ev": "Lookup", "a": {"i": i}}, {"ev": "Lookup", "a": {"i": hi}},
+             {"ev": "Push", "a": {"v": mk_vaa("after", i, ki, sorted(r.sample(range(len(ki)), q(len(ki)))), "valid")}}]
+    return {"init": init, "steps": steps, "src": "held-push"}
+
+
+def held_scenarios(seed_, n, kind):
+    rnd = random.Random("explorer-held-%s-%d" % (kind, seed_))
+    return [gen_held(rnd, kind) for _ in range(n)]
+
+
 def gen_scenarios(seed_, n, kind):
     rnd = random.Random("explorer-%s-%d" % (kind, seed_))
     f = gen_sets if kind == "sets" else gen_push
@@ -396,6 +442,8 @@ def classify_reject(trace_lines, bad, scenario):
             return "panic/%s/%s" % (ev, re.sub(r"[^A-Za-z0-9]+", "-", re.sub(r"\d+", "N", res.get("msg", "")))[:60].strip("-"))
         if ev == "LookupRet" and res.get("tag") == "set" and top is not None and a.get("i", 0) > top:
             return "reject/LookupRet/index-not-on-chain-answered-with-%s" % ("empty-set" if not res["set"]["keys"] else "a-set")
+        if ev == "LookupRet" and res.get("tag") == "set" and res["set"]["idx"] != a.get("i"):
+            return "reject/LookupRet/returned-%s-set-than-requested" % ("a-newer" if res["set"]["idx"] > a["i"] else "an-older")
         return "reject/%s/%s" % (ev, res.get("tag"))
     if ev == "PushRet":
         cls = "?"
